@@ -70,7 +70,16 @@ class Facts:
         for c in crates:
             self.crates.append(c["crate"])
             for b in c["bodies"]:
-                self.bodies[b["path"]] = b
+                # items declared in separate anonymous blocks share one def-path string (the statics clap's
+                # derive emits per `default_value_t`): keep every body, the later ones as path#2, #3, ...
+                k, n = b["path"], 1
+                while k in self.bodies:
+                    n += 1
+                    k = "%s#%d" % (b["path"], n)
+                if n > 1:
+                    b = dict(b)
+                    b["path"] = k
+                self.bodies[k] = b
             for a in c["adts"]:
                 self.adts[a["path"]] = a
             for k in c["consts"]:
